@@ -200,6 +200,11 @@ func Load(configFile string) Configuration {
 			Conf.Security.UserTokenEncryptionKey, _ = security.GenerateRandomString(32)
 			log.Printf("No valid `security.usertokenencryptionkey` specified (empty or not 32 characters). Setting to random")
 		}
+		// the signing key is optional, but it cannot be short
+		if l := len(Conf.Security.UserTokenSigningKey); l > 0 && l < 32 {
+			Conf.Security.UserTokenSigningKey, _ = security.GenerateRandomString(32)
+			log.Printf("No valid `security.usertokensigningkey` specified (less than 32 characters). Setting to random")
+		}
 	}
 
 	if len(Conf.Server.SessionKey) != 32 {
@@ -214,6 +219,11 @@ func Load(configFile string) Configuration {
 
 	if Conf.Server.HostSelection == "signed" && len(Conf.Security.QueryTokenSigningKey) == 0 {
 		log.Fatalf("host selection is set to `signed` but `querytokensigningkey` is not set")
+	}
+
+	if Conf.Server.HostSelection == "signed" && len(Conf.Security.QueryTokenSigningKey) < 32 {
+		Conf.Security.QueryTokenSigningKey, _ = security.GenerateRandomString(32)
+		log.Printf("No valid `security.querytokensigningkey` specified (less than 32 characters). Setting to random")
 	}
 
 	if Conf.Server.BasicAuthEnabled() && Conf.Server.Tls == "disable" {
